@@ -119,6 +119,57 @@ theorem ideal_in_range_slope (o : OutT) (inMin inMax ss : Rat) (ho1 : o.omin ≤
 
 example : rangeScaleSlope ⟨-32768, 32767⟩ (-65536) 100 = .ok 2 := by decide +kernel
 
+/-- `finite_range` (the source of `mn`, `mx`) brackets every finite element of the data -/
+theorem finite_range_brackets (data : List Val) (mn mx : Rat) (hn : Bool)
+    (h : finiteRange data = (some (mn, mx), hn)) : ∀ r, Val.fin r ∈ data → mn ≤ r ∧ r ≤ mx :=
+  finiteRange_mem data mn mx hn h
+
+example : finiteRange [.fin 3, .nan, .fin (-2), .pinf] = (some (-2, 3), true) := by decide +kernel
+
+/-- ERROR BOUND, slope + intercept writer (NIfTI): `(ss, bs)` is what `SlopeInterArrayWriter._range_scale` computes in
+    exact arithmetic for the finite range `[mn, mx]`; `(s, b)` is whatever was stored; `bm ⊇ sh`.  Every finite
+    `v ∈ [mn, mx]` reloads within `|s|/2 + |b − bs| + |s − ss|·max(|sh.1|, |sh.2|)`. -/
+theorem error_bound_inter (o : OutT) (sh bm : Int × Int) (mn mx s b ss bs v : Rat)
+    (hsh : sh.1 < sh.2) (hbm1 : bm.1 ≤ sh.1) (hbm2 : sh.2 ≤ bm.2) (hne : mn < mx) (hs : s ≠ 0)
+    (hideal : rangeScaleInter id o sh false mn mx = .ok (ss, bs)) (h1 : mn ≤ v) (h2 : v ≤ mx) :
+    rabs (applyReadScaling s b (scaleFin s b mn mx bm.1 bm.2 v) - v)
+      ≤ rabs s / 2 + rabs (b - bs) + rabs (s - ss) * max (rabs sh.1) (rabs sh.2) := by
+  obtain ⟨_, hx⟩ := ideal_in_range_inter o sh mn mx ss bs hsh hne hideal
+  obtain ⟨xs, hx1, hx2, hv⟩ := hx v h1 h2
+  have hq1 : ((sh.2 : Int) : Rat) - (bm.2 : Rat) ≤ 0 := by
+    have : ((sh.2 : Int) : Rat) ≤ (bm.2 : Rat) := by exact_mod_cast hbm2
+    linarith
+  have hq2 : ((bm.1 : Int) : Rat) - (sh.1 : Rat) ≤ 0 := by
+    have : ((bm.1 : Int) : Rat) ≤ (sh.1 : Rat) := by exact_mod_cast hbm1
+    linarith
+  have := error_bound_write s b ss bs mn mx v xs bm.1 bm.2 sh.1 sh.2 0 hs (by omega) h1 h2 hv hx1 hx2
+    (le_refl 0) hq1 hq2
+  simpa using this
+
+/-- ERROR BOUND, slope-only writer (SPM): the ideal slope aims at the integer TYPE range, `array_to_file` clips to the
+    shared range `bm ⊆ [omin, omax]`; the bound carries the gap `g = max(omax − bm.2, bm.1 − omin)`. -/
+theorem error_bound_slope (o : OutT) (bm : Int × Int) (mn mx s b ss v : Rat)
+    (ho1 : o.omin ≤ 0) (ho2 : 0 < o.omax) (hb : bm.1 ≤ bm.2) (hb1 : o.omin ≤ bm.1) (hb2 : bm.2 ≤ o.omax)
+    (hmm : mn ≤ mx) (hnz : ¬ (mn = 0 ∧ mx = 0)) (hs : s ≠ 0)
+    (hideal : rangeScaleSlope o mn mx = .ok ss) (h1 : mn ≤ v) (h2 : v ≤ mx) :
+    rabs (applyReadScaling s b (scaleFin s b mn mx bm.1 bm.2 v) - v)
+      ≤ rabs s / 2 + rabs (b - 0) + rabs (s - ss) * max (rabs o.omin) (rabs o.omax)
+        + rabs s * (((max (o.omax - bm.2) (bm.1 - o.omin) : Int)) : Rat) := by
+  obtain ⟨_, hx⟩ := ideal_in_range_slope o mn mx ss ho1 ho2 hmm hnz hideal
+  obtain ⟨xs, hx1, hx2, hv⟩ := hx v h1 h2
+  have hg0 : (0 : Rat) ≤ ((max (o.omax - bm.2) (bm.1 - o.omin) : Int) : Rat) := by
+    exact_mod_cast (show (0 : Int) ≤ max (o.omax - bm.2) (bm.1 - o.omin) by omega)
+  have hg1 : ((o.omax : Int) : Rat) - (bm.2 : Rat) ≤ ((max (o.omax - bm.2) (bm.1 - o.omin) : Int) : Rat) := by
+    have : o.omax - bm.2 ≤ max (o.omax - bm.2) (bm.1 - o.omin) := le_max_left _ _
+    exact_mod_cast this
+  have hg2 : ((bm.1 : Int) : Rat) - (o.omin : Rat) ≤ ((max (o.omax - bm.2) (bm.1 - o.omin) : Int) : Rat) := by
+    have : bm.1 - o.omin ≤ max (o.omax - bm.2) (bm.1 - o.omin) := le_max_right _ _
+    exact_mod_cast this
+  exact error_bound_write s b ss 0 mn mx v xs bm.1 bm.2 o.omin o.omax _ hs hb h1 h2 hv hx1 hx2 hg0 hg1 hg2
+
+example : rangeScaleInter id ⟨0, 255⟩ (0, 255) false 10 520 = .ok (2, 10) ∧
+    rangeScaleSlope ⟨-2147483648, 2147483647⟩ 0 4294967294 = .ok 2 := by decide +kernel
+
 /-- STAYS IN RANGE: a reloaded finite value leaves `[mn, mx]` by at most half a step plus the same rounding terms
     (hence by less than one step when the stored slope / intercept are the ideal ones and there is no gap). -/
 theorem stays_in_range (s b ss bs mn mx v xs : Rat) (bmn bmx L' H' : Int) (g : Rat) (hs : s ≠ 0)
